@@ -274,7 +274,7 @@ def modfile_args():
 def build_harness(prop):
     ensure_go_sum()
     os.makedirs(BUILD, exist_ok=True)
-    out = os.path.join(BUILD, "h_" + prop.harness)
+    out = os.path.join(BUILD, "h_%s_%s" % (prop.harness, prop.id))
     if os.path.exists(out):
         os.remove(out)
     pkg = "./cmd/" + prop.harness
